@@ -403,10 +403,10 @@ func judgeRetry(cs Case, log []Rec, add func(prop, sig, what string, w any), end
 		return
 	}
 	type att struct {
-		callT, retT   int64
-		callW, retW   int64
-		ok, returned  bool
-		ids           []string
+		callT, retT  int64
+		callW, retW  int64
+		ok, returned bool
+		ids          []string
 	}
 	batches := map[int64][]*att{}
 	gaveUp := map[int64]Rec{}
